@@ -1,5 +1,5 @@
 SPECIFICATION Spec
-CONSTANTS Ids = {1, 2}  Ovs = {0}  TagVals <- NoTags  Signs <- Both  Simple = FALSE  MaxLinks = 2  MaxDels = 0
+CONSTANTS Ids = {1, 2}  Ovs = {0, 3}  TagVals <- NoTags  Signs <- Both  Simple = FALSE  MaxLinks = 2  MaxDels = 0
 INVARIANT Symmetric
 INVARIANT NoDangling
 INVARIANT WalkLaw3
